@@ -197,6 +197,22 @@ def routing_history(rng, prof):
             g.disconnect(c)
         elif a == "tick":
             g.ops.append(op("tick", kind=rng.choice(prof.get("ticks", ["clients"])), dt=rng.choice(prof.get("dts", [0, 100]))))
+        elif a == "resub_clean":
+            # a client that holds subscriptions comes back with Clean Start 1 (live takeover or after a drop) and
+            # subscribes to one of its old filters again
+            have = [x for x in clients if g.subs.get(x)]
+            if have:
+                c = rng.choice(have)
+                f = rng.choice(g.subs[c])
+                if g.k(c) and rng.random() < 0.5:
+                    g.ops.append(op("netdrop", k=g.k(c)))
+                    del g.conn[c]
+                k = g.connect(c, clean=True)
+                so = dict(f=f, qos=rng.choice(prof.get("sub_qos", [0, 1, 2])), nl=False, rap=False, rh=0)
+                if g.ver[k] == 5 and prof.get("rh"):
+                    so["rh"] = rng.choice(prof["rh"])
+                g.subs.setdefault(c, []).append(f)
+                g.ops.append(op("subscribe", k=k, pid=g.pid(k), filters=[so]))
         elif a == "inline_publish":
             g.ops.append(op("inline_publish", t=rng.choice(prof.get("topics", TOPICS)), m=g.msg(), qos=rng.choice([0, 1, 2]),
                             retain=rng.random() < prof.get("retain", 0.0)))
@@ -238,6 +254,21 @@ def qos_history(rng, prof):
     w = prof.get("weights", dict(publish=10, ack=10, reconnect=2, drop=1, ping=1, collide=0, dup2=0, rel=3, takeover=1, tick=0))
     names = list(w)
     open2 = {}   # publisher -> list of (pid, topic, m) of own QoS 2 publishes not yet released
+
+    def rmkw():     # a reconnecting client may announce another Receive Maximum than before
+        return dict(rm=rng.choice(prof["rm_reconnect"])) if prof.get("rm_reconnect") else {}
+
+    def client_pid(k):  # the client's own packet identifiers: normally far from the broker's, sometimes the same small numbers
+        if rng.random() < prof.get("p_low_pid", 0.0):
+            busy = {p for lst in open2.values() for p, _, _ in lst}
+            free = [x for x in range(1, 5) if x not in busy]
+            if free:
+                return rng.choice(free)
+        return g.pid(k) + 100
+    if prof.get("pubs_subscribe"):
+        for c in pubs:
+            k = g.k(c)
+            g.ops.append(op("subscribe", k=k, pid=g.pid(k), filters=[dict(f=rng.choice([["a"], ["#"], ["b"]]), qos=rng.choice([1, 2]), nl=False, rap=False, rh=0)]))
     for _ in range(n):
         a = rng.choices(names, [w[x] for x in names])[0]
         if a == "publish":
@@ -249,7 +280,7 @@ def qos_history(rng, prof):
             q = rng.choice(prof.get("qos", [0, 1, 1, 2, 2]))
             o = op("publish", k=k, t=rng.choice(topics), m=g.msg(), qos=q)
             if q > 0:
-                o["pid"] = g.pid(k) + 100
+                o["pid"] = client_pid(k)
             if g.ver[k] == 5 and prof.get("mei"):
                 o["mei"] = rng.choice(prof["mei"])
             g.ops.append(o)
@@ -286,16 +317,21 @@ def qos_history(rng, prof):
             if kind == "ackall":
                 g.ops.append(op("ackall", k=k))
             else:
-                g.ops.append(op(kind, k=k, nth=rng.randint(1, 2), rc=(0 if rng.random() < 0.93 else 0x80) if kind == "pubrec" else 0))
+                o = op(kind, k=k, nth=rng.randint(1, 2), rc=(0 if rng.random() < 0.93 else 0x80) if kind == "pubrec" else 0)
+                if rng.random() < prof.get("p_ackdrop", 0.0):
+                    # the connection ends right after the acknowledgement was written (the broker cannot answer it)
+                    o["drop"] = True
+                    del g.conn[c]
+                g.ops.append(o)
         elif a == "reconnect":
             c = rng.choice(subs)
             if g.k(c):
                 g.ops.append(op("netdrop", k=g.k(c)))
                 del g.conn[c]
-            g.connect(c, clean=rng.random() < prof.get("p_clean_reconnect", 0.15), sei=300)
+            g.connect(c, clean=rng.random() < prof.get("p_clean_reconnect", 0.15), sei=300, **rmkw())
         elif a == "takeover":
             c = rng.choice(subs)
-            g.connect(c, clean=rng.random() < prof.get("p_clean_reconnect", 0.15), sei=300)
+            g.connect(c, clean=rng.random() < prof.get("p_clean_reconnect", 0.15), sei=300, **rmkw())
         elif a == "drop":
             c = rng.choice(subs)
             if g.k(c):
@@ -385,6 +421,12 @@ def session_history(rng, prof):
             g.ops.append(op("tick", kind="clients", dt=rng.choice(prof.get("dts", [0, 10, 40, 120, 400]))))
         elif a == "tick_wills":
             g.ops.append(op("tick", kind="wills", dt=rng.choice(prof.get("wdts", [0, 10, 30, 60]))))
+        elif a == "expiry_round":
+            # housekeeping as the event loop runs it: sessions, then wills, and the wills again one tick later
+            dt = rng.choice([40, 120, 400])
+            g.ops.append(op("tick", kind="clients", dt=dt))
+            g.ops.append(op("tick", kind="wills", dt=dt))
+            g.ops.append(op("tick", kind="wills", dt=dt + 1))
         elif a == "ackall":
             for d, kk in list(g.conn.items()):
                 g.ops.append(op("ackall", k=kk))
